@@ -1,4 +1,6 @@
 import Cvise.Proofs.DriverSafe
+import Cvise.Proofs.DriverCache
+import Cvise.Gen.Const
 /-!
 # C10 — the pass cache is transparent (what is proved of the replay table)
 
@@ -6,8 +8,12 @@ Every entry of the replay table is the recorded result of running the same pass 
 contents, and a replay writes exactly that recorded result.  Together with `C02.reduce_schedule_irrelevant` (the result
 of a pass run is a function of the files and the table, not of the schedule) this is the content of "the cache only
 skips work whose outcome is already known".  The remaining step — that re-running a pass from the same files yields the
-same files — needs the pass run to be history-independent (no bug-report directories, stated as `NoReports` in
-DESIGN.md); that step is delivered by the paired-run correspondence, not by a theorem (`_partial`).
+same files — needs the pass run to be history-independent.  `cache_transparent` proves it for whole reductions under
+the contract of C02 (well-behaved passes: finite rounds, no helper ERROR, no unchanged "OK", no give-up, no timeouts) and a
+deterministic interestingness test (`NoFaults`): the run with the table and the `--no-cache` run end with the same files
+(or the same error with the same files), whatever the two schedules are.  Outside that contract (passes that trigger bug
+reports, scripted per-invocation faults) a pass run depends on how many report directories exist and on the schedule, so
+no such statement holds in general; there the paired-run correspondence of the check is the evidence.
 -/
 namespace Cvise.C10
 open Cvise Cvise.D
@@ -31,5 +37,87 @@ theorem replay_is_recorded_result (cfg : Cfg) (hc : cfg.cacheOn = true) (hj : cf
     (LRes.st (fileStep cfg W dn P fuel (.inl (x, rid)) k)).disk = x.disk.set k after := by
   unfold fileStep
   simp only [hsz, if_false, hc, hj, if_true, hhit, LRes.st]
+
+/-- **C10 at full strength for well-behaved passes.**  `Rel` on two normal results says: same files, no futures left over
+    (and every table entry is what the pass yields without the table); on two error results: same error, same files; a
+    normal result is never paired with an error.  Hypotheses on the configuration are the facts regenerated from
+    `run_pass` (`shipped_facts`); `hkey`: two passes with the same `repr` are the same pass. -/
+theorem cache_transparent (cfg : Cfg) (hc : cfg.cacheOn = true) (hj : cfg.jointKey = true) (hr : cfg.releaseBeforeBail = true)
+    (W : World C) (hnf : NoFaults W) (d d' : Sched) (orderOf : List C → List Nat) (fuel : Nat)
+    (first main last : List (PassI C σ))
+    (hkey : ∀ P ∈ first ++ main ++ last, ∀ Q ∈ first ++ main ++ last, P.key = Q.key → P = Q)
+    (hg : ∀ P ∈ first ++ main ++ last, GoodPass cfg W P) (x : St C) (hx : x.cache = []) (hl : x.leftover = false) :
+    Rel cfg W fuel (first ++ main ++ last) (reduce cfg W d orderOf fuel first main last x)
+      (reduce (noCache cfg) W d' orderOf fuel first main last x) :=
+  reduce_cache_transparent cfg hc hj hr W hnf d d' orderOf fuel first main last hkey hg x hx hl
+
+/-- in particular: the final files agree -/
+theorem cache_transparent_files (cfg : Cfg) (hc : cfg.cacheOn = true) (hj : cfg.jointKey = true) (hr : cfg.releaseBeforeBail = true)
+    (W : World C) (hnf : NoFaults W) (d d' : Sched) (orderOf : List C → List Nat) (fuel : Nat)
+    (first main last : List (PassI C σ))
+    (hkey : ∀ P ∈ first ++ main ++ last, ∀ Q ∈ first ++ main ++ last, P.key = Q.key → P = Q)
+    (hg : ∀ P ∈ first ++ main ++ last, GoodPass cfg W P) (x : St C) (hx : x.cache = []) (hl : x.leftover = false) :
+    (LRes.st (reduce cfg W d orderOf fuel first main last x)).disk =
+      (LRes.st (reduce (noCache cfg) W d' orderOf fuel first main last x)).disk := by
+  have h := cache_transparent cfg hc hj hr W hnf d d' orderOf fuel first main last hkey hg x hx hl
+  generalize reduce cfg W d orderOf fuel first main last x = r at h ⊢
+  generalize reduce (noCache cfg) W d' orderOf fuel first main last x = r' at h ⊢
+  rcases r with ⟨a, _⟩ | ⟨_, a⟩ <;> rcases r' with ⟨b, _⟩ | ⟨_, b⟩ <;> simp only [Rel] at h
+  · exact h.1
+  · exact h.2
+
+/-- the two facts about `run_pass` the theorem needs are the ones the translator reads off the current source -/
+theorem shipped_facts : Gen.cacheKeyJoint = true ∧ Gen.releaseBeforeBail = true := by decide
+
+/-! non-vacuity: a concrete pass that meets `GoodPass` (one candidate per round: drop one unit while positive), a world
+    without faults, and the theorem applied to a run in which the pass meets the same content twice -/
+def decr : PassI Nat Nat where
+  key := 7
+  maxT := none
+  new := fun _ => some 0
+  advance := fun _ _ => none
+  aos := fun _ s => some s
+  transform := fun c s => if c = 0 then (.invalid, c, s) else (.ok, c - 1, s)
+
+def wW : World Nat where
+  size := fun c => c
+  test := fun j => if j.all (· ≥ 2) then .code 0 else .code 1
+  fault := fun _ _ => none
+
+theorem wW_noFaults : NoFaults wW := fun _ _ => rfl
+
+theorem decr_good (cfg : Cfg) (hgu : 1 ≤ cfg.giveup) : GoodPass cfg wW decr := by
+  intro disk k s rid
+  generalize disk.getD k default = cur
+  have hn : ∀ n, nthState decr cur s (n+1) = none := by
+    intro n
+    simp only [nthState]
+    cases nthState decr cur s n <;> rfl
+  refine ⟨1, by decide, by omega, ?_, ?_, ?_⟩
+  · intro t
+    cases t with
+    | zero => simp [nthState]
+    | succ n => rw [hn n]; simp
+  · intro i hi
+    have : i = 0 := by omega
+    subst this
+    by_cases hc : cur = 0
+    · constructor <;> simp [envOf, nthState, decr, wW, hc] <;> omega
+    · constructor <;> simp [envOf, nthState, decr, wW, hc] <;> first | omega | (split <;> simp)
+  · intro i j hij hj
+    omega
+
+example : (LRes.st (reduce { cacheOn := true } wW (fun _ _ _ => true) (fun _ => [0]) 50 [decr] [decr] [decr] { disk := [5] })).disk = [2] := by
+  decide +kernel
+example : (LRes.st (reduce (noCache { cacheOn := true }) wW (fun _ _ _ => false) (fun _ => [0]) 50 [decr] [decr] [decr] { disk := [5] })).disk = [2] := by
+  decide +kernel
+
+/-- the theorem applied: all hypotheses are met by this instance -/
+example (d d' : Sched) :
+    (LRes.st (reduce { cacheOn := true, releaseBeforeBail := true } wW d (fun _ => [0]) 50 [decr] [decr] [decr] { disk := [5] })).disk =
+    (LRes.st (reduce (noCache { cacheOn := true, releaseBeforeBail := true }) wW d' (fun _ => [0]) 50 [decr] [decr] [decr] { disk := [5] })).disk :=
+  cache_transparent_files _ rfl rfl rfl wW wW_noFaults d d' _ 50 [decr] [decr] [decr]
+    (by intro P hP Q hQ _; simp at hP hQ; rw [hP, hQ])
+    (by intro P hP; simp at hP; subst hP; exact decr_good _ (by decide)) { disk := [5] } rfl rfl
 
 end Cvise.C10
